@@ -18,6 +18,8 @@ pub const LOAD: u8 = 0;
 pub const STORE: u8 = 1;
 pub const SWAP: u8 = 2;
 pub const CAS: u8 = 3;
+/// read-modify-write (fetch_or, fetch_and, ...): `new` is the operand, not the resulting value
+pub const RMW: u8 = 4;
 
 /// Called before an access: `(kind, address, size in bytes)`
 pub type Before = fn(u8, usize, usize);
